@@ -1022,6 +1022,7 @@ class Explorer:
         self.prefix = prefix
         self.prefix_model = model
         self.decisions = []
+        self.decided = {}
         self.pc = []
         self.model = None if prefix else model
         self.inputs = []       # (name, kind, payload)
@@ -1080,6 +1081,15 @@ class Explorer:
             return False
         if self.no_fork:
             raise SpecFail()
+        # a condition already decided on this path (same hash-consed term, or its negation) needs no new decision
+        eid = e.get_id()
+        known = self.decided.get(eid)
+        if known is not None:
+            return known
+        if z3.is_not(e):
+            known = self.decided.get(e.arg(0).get_id())
+            if known is not None:
+                return not known
         i = len(self.decisions)
         if i < len(self.prefix):
             val = self.prefix[i]
@@ -1087,6 +1097,7 @@ class Explorer:
                 raise EngineError("non-deterministic re-execution (bool decision expected)")
             self.decisions.append(val)
             self.pc.append(e if val else z3.Not(e))
+            self.decided[eid] = val
             if i == len(self.prefix) - 1:
                 self.model = self.prefix_model
             return val
@@ -1102,6 +1113,7 @@ class Explorer:
             self.stats.notes.append("unknown feasibility at decision %d" % i)
         self.decisions.append(val)
         self.pc.append(e if val else z3.Not(e))
+        self.decided[eid] = val
         return val
 
     def choose(self, name, options):
